@@ -5,7 +5,27 @@ open Lean
 
 def jsonStr (s : String) : String := "\"" ++ (s.replace "\\" "\\\\").replace "\"" "\\\"" ++ "\""
 
-instance : MonadEnv (StateM Environment) := ⟨get, modify⟩
+/-- axioms a constant depends on, memoised across all the theorems of one run (a fresh
+`collectAxioms` per theorem re-walks the shared library proofs every time) -/
+partial def axiomsOf (env : Environment) (n : Name) : StateM (Std.HashMap Name NameSet) NameSet := do
+  if let some r := (← get).get? n then return r
+  -- mark first: constants are acyclic, this only guards against re-entry
+  modify (·.insert n {})
+  let r ← match env.find? n with
+    | none => pure {}
+    | some ci => do
+      let mut acc : NameSet := {}
+      if let .axiomInfo _ := ci then acc := acc.insert n
+      let deps := match ci.value? (allowOpaque := true) with
+        | some v => ci.type.getUsedConstantsAsSet.merge v.getUsedConstantsAsSet
+        | none => match ci with
+          | .inductInfo iv => iv.ctors.foldl (fun s c => s.insert c) ci.type.getUsedConstantsAsSet
+          | _ => ci.type.getUsedConstantsAsSet
+      for d in deps.toList do
+        acc := acc.merge (← axiomsOf env d)
+      pure acc
+  modify (·.insert n r)
+  return r
 
 unsafe def main (args : List String) : IO UInt32 := do
   initSearchPath (← findSysroot)
@@ -13,6 +33,7 @@ unsafe def main (args : List String) : IO UInt32 := do
   let mods := args.map String.toName
   let env ← importModules (mods.toArray.map fun m => { module := m }) {} (trustLevel := 1024) (loadExts := true)
   let mut out : Array String := #[]
+  let mut memo : Std.HashMap Name NameSet := {}
   for m in mods do
     let some idx := env.getModuleIdx? m | continue
     let names := env.header.moduleData[idx.toNat]!.constNames
@@ -20,7 +41,8 @@ unsafe def main (args : List String) : IO UInt32 := do
       if n.isInternal then continue
       match env.find? n with
       | some (.thmInfo _) =>
-        let (axioms, _) := (collectAxioms n : StateM Environment (Array Name)).run env
+        let (axioms, memo') := (axiomsOf env n).run memo
+        memo := memo'
         let axs := axioms.toList.map (fun a => jsonStr a.toString)
         out := out.push ("{\"module\":" ++ jsonStr m.toString ++ ",\"theorem\":" ++ jsonStr n.toString ++
           ",\"axioms\":[" ++ ",".intercalate axs ++ "]}")
